@@ -30,7 +30,9 @@ CONSTANTS Owner,        \* intent names
           FailKinds,    \* subset of {"none", "device"}: scripted outcome of the device write
           TmoKinds,     \* subset of {"short", "long"}: transaction timeout classes
           WithLifecycle,\* BOOLEAN: transactions stay open until Confirm/Cancel/Expire
-          InitDevice    \* set of initial device contents (partial functions)
+          InitDevice,   \* set of initial device contents (partial functions)
+          Disabled,     \* disabled validator classes (C04)
+          UseBad        \* BOOLEAN: requests may carry constraint-violating values
 
 VARIABLES intended,   \* intent store: set of [o, p, l, v]
           running,    \* running mirror (cache Store_CONFIG)
@@ -55,7 +57,7 @@ Failed(req, I, d) == IF lastFail.valid /\ lastFail.req = req THEN lastFail
                      ELSE [valid |-> TRUE, req |-> req, I |-> I, d |-> d]
 Idle == pend.phase = "idle"
 Free == slot.id = "none"
-Val(l) == UVals[l]
+Val(l) == UVals[l] \cup (IF UseBad THEN {b[2] : b \in {x \in UBad : x[1] = l}} ELSE {})
 NonKey == Leaf \ UKeyLeaf
 
 \* ---- request space (bounded)
@@ -71,10 +73,9 @@ Request == {{i} : i \in Intent} \cup
            (IF MaxIntents >= 2 THEN {{i, j} : i \in Intent, j \in Intent} ELSE {})
 GoodRequest(R) == DistinctOwners(R) /\ PrioOK(intended, R)
 
-\* validity of the resulting configuration: the core configurations carry no constraint
-\* (IntentsValid.tla instantiates this module's actions with a real Valid)
-Valid(cfg) == TRUE
-ResultCfg(I2, d) == Overlay(Without(d, LeavesOf(I2) \cup ever), Eff(I2))
+\* validity of the resulting configuration (C04); the core universes carry no constraint
+Valid(cfg) == ValidCfg(cfg, Disabled)
+ResultCfg(I2, d) == ResultOf(I2, d, ever)
 
 Init == /\ intended = {}
         /\ device \in InitDevice
@@ -251,6 +252,8 @@ TypeOK == /\ \A x \in intended : x.o \in Owner /\ x.p \in Prio /\ x.l \in Leaf
 Converged == (Quiet /\ ~WithFaults) => AdmConverged(device, intended)
 \* C02
 StoreShape == Quiet => (OnePrioPerOwner(intended) /\ OneValuePerKey(intended))
+\* C04: whatever was applied is a valid configuration (initial device contents are valid)
+DeviceValid == (Quiet /\ ~WithFaults) => Valid(device)
 \* C08
 OneCase == (Quiet /\ ~WithFaults) =>
     \A l1, l2 \in DOMAIN device : (ChoiceOf(l1) # NoChoice /\ ChoiceOf(l1) = ChoiceOf(l2)
